@@ -99,6 +99,112 @@ class CksWorld(World):
             v.append(Violation(P, clause, f"content {st.data.hex()}: {b}", **d))
         return v
 
+BOUNDS = (255, 256, 257, 4095, 4096, 4097, 65535, 65536, 65537)
+
+
+def _table(poly):
+    t = []
+    for b in range(256):
+        c = b
+        for _ in range(8):
+            c = (c >> 1) ^ poly if c & 1 else c >> 1
+        t.append(c)
+    return t
+
+
+_TABLES = {"crc32": _table(0xEDB88320), "crc32c": _table(0x82F63B78)}
+
+
+def _ref_fast(tname, data: bytes) -> bytes:
+    """Table-driven form of the bit-by-bit reference (the table is derived from the same shift/xor step and
+    the result is compared with the bit-by-bit function on a 600 byte prefix in every evaluation)."""
+    if tname not in _TABLES:
+        return refcks.REF[tname](data)
+    t, crc = _TABLES[tname], 0xFFFFFFFF
+    for b in data:
+        crc = (crc >> 8) ^ t[(crc ^ b) & 0xFF]
+    return (crc ^ 0xFFFFFFFF).to_bytes(4, "big")
+
+
+def big_content(pattern: str, n: int) -> bytes:
+    if pattern == "ff":
+        return bytes([0xFF]) * n
+    return bytes(((i * 131 + (i >> 8) * 7 + 5) & 0xFF) for i in range(n))
+
+
+class CksBoundaryWorld(World):
+    """One large structured content (cfg: pattern, length at / next to a power-of-two boundary); the single event
+    writes it and evaluates every (type, prefix, chunk) of the boundary menus: lengths at which a read cap, a
+    16 bit length field or a block size of the filestore would show."""
+    prop = P
+    name = "CKSBIG"
+    uses_sandbox = False
+
+    def build(self):
+        return _S()
+
+    def enabled(self, st):
+        return [] if st.data else [("write", self.cfg["pattern"], self.cfg["length"])]
+
+    def apply(self, st, ev):
+        data = big_content(ev[1], ev[2])
+        st.data = b"x"  # marker only: the content is a function of the configuration
+        path = Path(sandbox.root()) / "cksbig.bin"
+        with open(path, "wb") as f:
+            f.write(data)
+        vfs = NativeFilestore()
+        L = len(data)
+        prefixes = sorted({p for p in BOUNDS if p <= L} | {0, L})
+        chunks = sorted({c for c in BOUNDS + (1024, L, L + 1) if 1 <= c <= L + 1})
+        bad, n = [], 0
+        for tname, t in CKS.items():
+            assert _ref_fast(tname, data[:600]) == refcks.REF[tname](data[:600])
+            for p in prefixes:
+                want = _ref_fast(tname, data[:p])
+                for chunk in chunks:
+                    n += 1
+                    try:
+                        got = vfs.calculate_checksum(t, path, p, chunk)
+                    except Exception as ex:  # noqa: BLE001
+                        bad.append({"type": tname, "prefix": p, "chunk": chunk, "exc": type(ex).__name__})
+                        continue
+                    if got != want:
+                        bad.append({"type": tname, "prefix": p, "chunk": chunk, "got": bytes(got).hex(), "want": want.hex(), "full": p == L})
+                for val, expect in ((want, True), (want[:3] + bytes([want[3] ^ 1]), False)):
+                    for chunk in (4096, 65536):
+                        n += 1
+                        try:
+                            ok = vfs.verify_checksum(val, t, path, p, chunk)
+                        except Exception as ex:  # noqa: BLE001
+                            bad.append({"type": tname, "prefix": p, "verify": val.hex(), "exc": type(ex).__name__})
+                            continue
+                        if bool(ok) != expect:
+                            bad.append({"type": tname, "prefix": p, "verify": val.hex(), "got": bool(ok), "want": expect, "full": p == L})
+        os.unlink(path)
+        obs = {"len": L, "evals": n}
+        if bad:
+            obs["bad"] = bad[:6]
+            obs["nbad"] = len(bad)
+        return obs
+
+    def quiet(self, obs):
+        return False
+
+    def check(self, st, ev, obs):
+        v, seen = [], set()
+        for b in obs.get("bad", []):
+            if "exc" in b:
+                clause, d = "C09.exception", dict(type=b["type"], exc=b["exc"])
+            elif "verify" in b:
+                clause, d = "C09.verify", dict(type=b["type"], accepted_wrong=b["got"], full=b["full"])
+            else:
+                clause, d = "C09.value", dict(type=b["type"], full=b["full"])
+            k = (clause, tuple(sorted(d.items())))
+            if k not in seen:
+                seen.add(k)
+                v.append(Violation(P, clause, f"content {ev[1]} x {ev[2]} bytes: {b}", **d))
+        return v
+
 
 def run(tier: str) -> int:
     run_ = Run(P, tier, assumptions=[
@@ -116,4 +222,9 @@ def run(tier: str) -> int:
     for w in worlds:
         r = explore(w, procs=NPROC, check_cycles=False, validate_stride=257, validate_terminals=4, n_samples=1)
         run_.add(r)
-    return run_.finish(rule="complete tree of byte strings over the alphabet up to the length bound; per string all (prefix, chunk, type) combinations and 4 verification candidates per (prefix, type)")
+    lens = (257, 4097, 65535, 65536, 65537, 70001) if tier == "quick" else BOUNDS + (70001, 131073)
+    big = [CksBoundaryWorld(pattern=pt, length=n) for pt in ("mix", "ff") for n in lens]
+    run_.bounds["boundary_worlds"] = {"patterns": ["mix", "ff"], "lengths": list(lens), "prefixes": "0, len and every boundary value <= len",
+                                      "chunks": "every boundary value <= len+1, 1024, len, len+1", "boundary_values": list(BOUNDS)}
+    run_.add_all(explore_many(big, procs=NPROC, validate_stride=1, n_samples=1))
+    return run_.finish(rule="complete tree of byte strings over the alphabet up to the length bound; per string all (prefix, chunk, type) combinations and 4 verification candidates per (prefix, type); plus the complete product (pattern x length x type x prefix x chunk) of the boundary worlds")
